@@ -18,7 +18,7 @@ RULE = (
     'species, cell, parameters).'
 )
 RULE += ' Added in rounds 5-10: in-place edits (temperature, time step, extend) re-queried through Trajectory.metrics(); 1/T law on a second live trajectory; cell scale over six decades; hydrogen isotopes; lists of different runs (other cell / temperature / a one-frame run) for the Std variants; arbitrary time steps.'
-RULE += ' Round 12: ion charges also negative, zero (conductivity exactly 0) and fractional.'
+RULE += ' Round 12: ion charges also negative, zero (conductivity exactly 0) and fractional. Round 13: a series of further charges from {-2,-1,1,2,3} is queried on the same metrics object.'
 ASSUMPTIONS = [
     'CODATA 2018 exact constants (k_B, e, N_A); atomic masses from pymatgen Element data',
     'relative tolerance 1e-9; total time = n_frames x time_step',
@@ -109,6 +109,11 @@ def run_unit(unit, rng, ctx):
     ctx.check(close(M.tracer_diffusivity(dimensions=dim), D), f'{what}: tracer_diffusivity {float(M.tracer_diffusivity(dimensions=dim))!r} != {D!r}', wit)
     sigma = QE**2 * z**2 * D * dens / (KB * temp)
     ctx.check(close(M.tracer_conductivity(z_ion=z, dimensions=dim), sigma), f'{what}: tracer_conductivity {float(M.tracer_conductivity(z_ion=z, dimensions=dim))!r} != e^2 z^2 D n / kT = {sigma!r}', wit)
+    # the same object asked for further charges (a series -2 .. 2 of candidate carriers) answers each with its own z^2
+    for z_more in [int(x_) for x_ in rng.permutation([-2, -1, 1, 2, 3])[: int(rng.integers(2, 5))]]:
+        s_more = QE**2 * z_more**2 * D * dens / (KB * temp)
+        ctx.check(close(M.tracer_conductivity(z_ion=z_more, dimensions=dim), s_more), f'{what}: a further tracer_conductivity(z_ion={z_more}) on the same object gives {float(M.tracer_conductivity(z_ion=z_more, dimensions=dim))!r} != e^2 z^2 D n / kT = {s_more!r}', wit)
+    ctx.count('series_of_charges_on_one_metrics_object')
     got_com = float(M.tracer_diffusivity_center_of_mass(dimensions=dim))
     if Dcom > 1e-6 * D:
         ctx.check(close(got_com, Dcom, 1e-7), f'{what}: centre-of-mass diffusivity {got_com!r} != mass-weighted definition {Dcom!r}', {**wit, 'masses': masses})
